@@ -190,6 +190,36 @@ def build_registry():
                      lambda r: (JX.Material(JX.models.lagrange.morph_representative_directions, p=P_MORPH, nstatevars=84), dict(p=P_MORPH)),
                      nsv=84, hyperelastic=False, history=True, isotropic=False, microsphere=True, heavy=True, isochoric=True))
 
+    # the distortional-split decorator of both backends around a plain energy (must equal the isochoric Neo-Hookean law), and
+    # the public micro-sphere frameworks with the two chain laws
+    import tensortrax.math as _tm
+
+    def make_split_tt(r):
+        p = dict(mu=U(r, 0.5, 2))
+
+        @TT.isochoric_volumetric_split
+        def W(C, mu):
+            return mu / 2 * (_tm.trace(C) - 3)
+        return TT.Hyperelastic(W, **p), p
+    out.append(Model("tt.isochoric_volumetric_split(neo)", "tt", make_split_tt, moduli=lambda p: (p["mu"], None), isochoric=True))
+
+    def make_split_jax(r):
+        import jax.numpy as jnp
+        p = dict(mu=U(r, 0.5, 2))
+
+        @JX.isochoric_volumetric_split
+        def W(C, mu):
+            return mu / 2 * (jnp.trace(C) - 3)
+        return JX.Hyperelastic(W, **p), p
+    out.append(Model("jax.isochoric_volumetric_split(neo)", "jax", make_split_jax, moduli=lambda p: (p["mu"], None), isochoric=True))
+    _ms = TT.models.hyperelastic.microsphere
+    out.append(Model("tt.microsphere.affine_stretch(langevin)", "tt",
+                     lambda r: (lambda p: (TT.Hyperelastic(_ms.affine_stretch, f=_ms.langevin, kwargs=dict(p)), p))(dict(mu=U(r, 0.5, 2), N=U(r, 5, 20))),
+                     isotropic=False, microsphere=True, isochoric=True))
+    out.append(Model("tt.microsphere.affine_tube(linear)", "tt",
+                     lambda r: (lambda p: (TT.Hyperelastic(_ms.affine_tube, f=_ms.linear, kwargs=dict(p)), p))(dict(mu=U(r, 0.5, 2))),
+                     isotropic=False, microsphere=True, isochoric=True))
+
     # total / updated Lagrange wrappers around small test laws (tensortrax)
     from tensortrax.math import trace as ttrace
     from tensortrax.math.linalg import det as tdet, inv as tinv
